@@ -82,6 +82,18 @@ theorem cmdline_save_recoverable (fs : FS α) (c : α) (h0 : fs pCoredata ≠ .t
   · rw [atomic_replace_frame fs pCmdlineTmp pCmdline pCoredata c (by decide) (by decide) s hs]; exact h0
   · rcases cmdline_save_safe fs c s hs with h | h <;> simp [h, h1]
 
+/-- the rollback of a failed configuration (`os.replace(coredata.dat.prev, coredata.dat)`) is atomic: at every
+    crash point `coredata.dat` is what the failed command left or what `.prev` held, and it never disappears -/
+theorem rollback_atomic_safe (fs : FS α) :
+    ∀ s ∈ crashStates fs (restorePrev : List (Effect α)),
+      (s pCoredata = fs pCoredata ∨ s pCoredata = fs pCoredataPrev) ∧
+      (fs pCoredata ≠ .absent → fs pCoredataPrev ≠ .absent → s pCoredata ≠ .absent) := by
+  intro s hs
+  cases hp : fs pCoredataPrev <;>
+    simp [restorePrev, crashStates, step, mid, hp] at hs <;>
+    (try rcases hs with rfl | rfl) <;> (try subst hs) <;>
+    simp_all [FS.set, pCoredata, pCoredataPrev]
+
 /-- an in-place write (`open(p,'w')`; dump; close) has a crash point that leaves the file torn -/
 theorem in_place_write_unsafe (fs : FS α) (p : Path) (c : α) :
     ∃ s ∈ crashStates fs (inPlaceWrite p c), s p = .torn := by
@@ -185,6 +197,21 @@ theorem rotate_by_rename_counterexample :
       acceptable .configure true (recover s) = false := by
   decide
 
+/-- a configured directory after a later save: `coredata.dat.prev` holds the pre-command state -/
+def configuredWithPrev : FS Gen :=
+  FS.ofList [(pCoredata, .ok .new), (pCoredataPrev, .ok .old), (pCmdline, .ok .old), (pPrivate, .dir)]
+
+/-- a rollback that first unlinks `coredata.dat` and then renames `.prev` into place has a crash point where the
+    directory looks unconfigured: the follow-up setup rebuilds from cmd_line.txt and loses every value that lives
+    only in coredata.dat -/
+def restorePrevUnlinkFirst : List (Effect Gen) :=
+  [.unlink pCoredata, .replace pCoredataPrev pCoredata]
+
+theorem rollback_unlink_replace_counterexample :
+    ∃ s ∈ crashStates configuredWithPrev restorePrevUnlinkFirst, s pCoredata = .absent ∧
+      recover s = .usable (.cmdlineOptions .old) ∧ acceptable .reconfigure true (recover s) = false := by
+  decide
+
 /-! ### per-run obligations over the traces recorded from the real commands -/
 
 /-- the window in which the current code does not recover (the `--wipe` findings above) -/
@@ -193,20 +220,20 @@ def excused (c : Cmd) (mf : Bool) (s : FS Gen) : Bool :=
 
 def scenarioOk (sc : Scenario) : Bool :=
   (crashStates sc.fs0 sc.trace).all
-    (fun s => excused sc.cmd sc.machineFile s || acceptable sc.cmd sc.machineFile (recover s))
+    (fun s => excused sc.cmd sc.coredataOnly s || acceptable sc.cmd sc.coredataOnly (recover s))
 
 /-- the property over the model, full strength: every crash point of every recorded command is recoverable
     with old-or-new option values (false of the current code: see the wipe counterexamples) -/
 def full_statement : Prop :=
   ∀ sc ∈ CrashTraces.all, ∀ s ∈ crashStates sc.fs0 sc.trace,
-    acceptable sc.cmd sc.machineFile (recover s) = true
+    acceptable sc.cmd sc.coredataOnly (recover s) = true
 
 /-- every crash point of every recorded trace outside the `--wipe` window is recoverable, and the recovered
     option values are the pre-command ones or the ones the command was setting -/
 theorem all_crash_points_recoverable_partial :
     ∀ sc ∈ CrashTraces.all, ∀ s ∈ crashStates sc.fs0 sc.trace,
-      ¬ (sc.cmd = .wipe ∧ s pCoredata = .absent ∧ (s pCmdline = .absent ∨ sc.machineFile = true)) →
-      acceptable sc.cmd sc.machineFile (recover s) = true := by
+      ¬ (sc.cmd = .wipe ∧ s pCoredata = .absent ∧ (s pCmdline = .absent ∨ sc.coredataOnly = true)) →
+      acceptable sc.cmd sc.coredataOnly (recover s) = true := by
   have key : ∀ sc ∈ CrashTraces.all, scenarioOk sc = true := by decide +kernel
   intro sc hsc s hs h2
   have := key sc hsc
@@ -228,7 +255,7 @@ theorem all_crash_points_recoverable_partial :
 /-- in particular: the three commands other than `--wipe` are recoverable at *every* crash point -/
 theorem non_wipe_commands_recoverable :
     ∀ sc ∈ CrashTraces.all, sc.cmd ≠ .wipe → ∀ s ∈ crashStates sc.fs0 sc.trace,
-      acceptable sc.cmd sc.machineFile (recover s) = true := by
+      acceptable sc.cmd sc.coredataOnly (recover s) = true := by
   intro sc hsc hne s hs
   exact all_crash_points_recoverable_partial sc hsc s hs (fun h => hne h.1)
 
@@ -291,7 +318,7 @@ theorem recorded_coredata_always_present :
 
 /-! ### non-vacuity -/
 
-example : CrashTraces.all.length = 31 := by decide
+example : CrashTraces.all.length = 41 := by decide
 example : (crashStates CrashTraces.sc_configure_h2_ninja.fs0 CrashTraces.sc_configure_h2_ninja.trace).length > 10 := by
   decide +kernel
 /-- the partial theorem's hypotheses hold at some crash point where a state file is mid-update -/
@@ -302,6 +329,9 @@ example : neverTornCheck pCmdline configured (inPlaceWrite pCmdline Gen.new) = f
 example : neverTornCheck pCmdline configured (cmdlineSave Gen.new) = true := by decide
 example : alwaysPresentCheck pCoredata (coredataSave Gen.new) = true := by decide
 example : alwaysPresentCheck pCoredata (rotateByRename .new) = false := by decide
-example : ∃ sc ∈ CrashTraces.all, sc.machineFile = true ∧ sc.cmd = .configure := by decide
+example : alwaysPresentCheck pCoredata (restorePrev : List (Effect Gen)) = true := by decide
+example : alwaysPresentCheck pCoredata restorePrevUnlinkFirst = false := by decide
+example : ∀ s ∈ crashStates configuredWithPrev (restorePrev : List (Effect Gen)), s pCoredata ≠ .absent := by decide
+example : ∃ sc ∈ CrashTraces.all, sc.coredataOnly = true ∧ sc.cmd = .configure := by decide
 
 end MesonModel.Props.C09
